@@ -404,8 +404,9 @@ fn c20_encoder_new() {
 // `Option<Reference<dyn Getter<..>>>` (recursive drop glue through the vtable) is then explored for all
 // variants/candidates and symbolic execution does not terminate in hours (`PIDWrapper::new` alone with symbolic
 // gains: > 15 min, unfinished).  Decomposition used instead:
-//   (1) c20_pid_new_wiring            the real `new`: the wiring W (who shares which object, who follows whom, which
-//                                     values are stored), symbolic time and state, concrete command and gains;
+//   (1) c20_pid_real_new_wiring       the real `new`: the wiring W (who shares which object, who follows whom, which
+//                                     values are stored), all arguments symbolic; needs the CBMC flag
+//                                     `--max-field-sensitivity-array-size 1024` (5 s with it, no result without);
 //   (2) c20_pid_update_* / _matches_* the real `update` on a wrapper built by struct literal in wiring W with every
 //                                     value symbolic, the shared objects being locals behind `Reference::from_ptr`
 //                                     (field-sensitive, so everything stays tractable).  `update` is written
@@ -498,7 +499,7 @@ fn pid_now(pid: &Reference<Pid>) -> Option<Datum<f32>> {
         }
     }
 }
-/// The wiring W that `PIDWrapper::new` establishes (and that c20_pid_new_wiring proves it establishes).
+/// The wiring W that `PIDWrapper::new` establishes (and that c20_pid_real_new_wiring proves it establishes).
 fn wiring_ok<T: Settable<f32, Er>>(w: &PIDWrapper<'_, T, Er>) -> bool {
     same_target(&w.state.borrow().time_getter, &w.time)
         && same_target(&w.command.borrow().time_getter, &w.time)
@@ -514,18 +515,14 @@ fn wiring_ok<T: Settable<f32, Er>>(w: &PIDWrapper<'_, T, Er>) -> bool {
         && w.command.borrow().get_settable_data_ref().following.is_none()
 }
 
-//@ob fn="PIDWrapper::new" at=src/devices/wrappers.rs:98 bounded="initial_command and k-values concrete (CBMC: no field sensitivity in heap objects > 64 bytes); initial_time, initial_state symbolic" clause="wiring W after the real new: shared clock holds initial_time; state and command ConstantGetters hold the initial values and read that same clock (same allocation); the CommandPID follows the command getter and the inner motor follows the CommandPID (same allocations, through to_dyn!); the getters follow nothing; the PID is fresh (no output), the terminal is fresh, the motor has not been set or updated.  new is straight-line and never inspects its value arguments (they are only moved)"
+//@ob fn="PIDWrapper::new" at=src/devices/wrappers.rs:98 tier=thorough cbmc="--max-field-sensitivity-array-size 1024" clause="wiring W after the real new, all arguments symbolic: shared clock holds initial_time; state and command ConstantGetters hold the initial values and read that same clock (same allocation); the CommandPID follows the command getter and the inner motor follows the CommandPID (same allocations, through to_dyn!); the getters follow nothing; the PID is fresh (no output), the terminal is fresh, the motor has not been set or updated.  NEEDS the CBMC flag in cbmc= (heap objects > 64 bytes are otherwise not field-sensitive and symbolic execution does not terminate)"
 #[kani::proof]
 #[kani::unwind(3)]
-fn c20_pid_new_wiring() {
+fn c20_pid_real_new_wiring() {
     let t0: Time = kani::any();
     let s0: State = kani::any();
-    let c0 = Command::new(PositionDerivative::Velocity, 2.5);
-    let k = PositionDerivativeDependentPIDKValues::new(
-        PIDKValues::new(1.0, 0.01, 0.1),
-        PIDKValues::new(2.0, 0.02, 0.2),
-        PIDKValues::new(3.0, 0.03, 0.3),
-    );
+    let c0: Command = kani::any();
+    let k: PositionDerivativeDependentPIDKValues = kani::any();
     let w = PIDWrapper::new(Motor::any(), t0, s0, c0, k);
     assert!(*w.time.borrow() == t0);
     assert!(state_bits_eq(w.state.borrow().value, s0));
